@@ -1,5 +1,68 @@
-(* C14 — placeholder while the correspondence is brought up *)
+(* C14 — property theorems only.  Proofs live in Proofs/RplProofs.v.
+   The model (Model/Rpl.v) is the hand model of annet/rpl_generators; [patched] is the tree
+   with /verif/fixes/C14-*.patch applied, [faithful] the unchanged tree. *)
 From Coq Require Import List String Bool Arith.
-From Annet Require Import Base.Str Base.Tree Model.Rpl Spec.P_C14.
+From Annet Require Import Base.Str Base.Tree Model.Rpl Spec.P_C14 Proofs.RplProofs.
 Import ListNotations.
 Open Scope string_scope.
+
+(* (d) per action: for every vendor, every environment of entities and every action whose
+   list references are type-correct (all list parameters universally quantified), an error
+   comes with no line of that action. *)
+Theorem C14_error_before_lines :
+  forall (v : vendor) (e : env) (a : action) (er : err),
+    wf_action e a = true ->
+    snd (emit_action patched v e a) = Some er -> fst (emit_action patched v e a) = [].
+Proof. exact action_error_before_lines. Qed.
+Print Assumptions C14_error_before_lines.
+
+(* (d) per match condition: no guard at all (holds on the unchanged tree as well: conditions
+   do not depend on the repairs). *)
+Theorem C14_error_before_lines_cond :
+  forall (v : vendor) (e : env) (c : cond) (er : err),
+    snd (emit_cond v e c) = Some er -> fst (emit_cond v e c) = [].
+Proof. exact cond_error_before_lines'. Qed.
+Print Assumptions C14_error_before_lines_cond.
+
+(* The unchanged tree violates (d): witnesses replayed on the real generators by the check
+   (harness/props/c14.py, exhaustive single-item programs). *)
+Theorem C14_huawei_next_hop_refuted :
+  exists a, partial_emission faithful Huawei env0 a.
+Proof. eexists. exact hw_next_hop_refuted. Qed.
+Print Assumptions C14_huawei_next_hop_refuted.
+
+Theorem C14_huawei_as_path_refuted :
+  exists a, partial_emission faithful Huawei env0 a.
+Proof. eexists. exact hw_as_path_refuted. Qed.
+Print Assumptions C14_huawei_as_path_refuted.
+
+Theorem C14_huawei_extcommunity_refuted :
+  partial_emission faithful Huawei env0 (AComm AFExt (Some ["RT1"; "SOO1"]) [] []) /\
+  partial_emission faithful Huawei env0 (AComm AFExtSoo None ["SOO1"] ["SOO1"]).
+Proof. split; [exact hw_extcommunity_refuted | exact hw_extcommunity_soo_refuted]. Qed.
+Print Assumptions C14_huawei_extcommunity_refuted.
+
+Theorem C14_arista_as_path_refuted :
+  partial_emission faithful Arista env0 (AAsPath (Some ["1"; "2"]) [] [] ["3"] "").
+Proof. exact ar_as_path_refuted. Qed.
+Print Assumptions C14_arista_as_path_refuted.
+
+Theorem C14_cumulus_refuted :
+  partial_emission faithful Cumulus env0 (AAsPath None ["1"] ["3"] [] "") /\
+  partial_emission faithful Cumulus env0 (AComm AFLarge None ["L1"] ["L1"]) /\
+  partial_emission faithful Cumulus env0 (AComm AFExtRt None ["RT1"] ["RT1"]) /\
+  partial_emission faithful Cumulus env0 (AComm AFExtSoo None ["SOO1"] ["SOO1"]).
+Proof. repeat split; first [apply cu_as_path_refuted | apply cu_large_refuted | apply cu_ext_rt_refuted | apply cu_ext_soo_refuted]. Qed.
+Print Assumptions C14_cumulus_refuted.
+
+(* non-vacuity: guarded theorem has a non-trivial instance in its domain, erroring and not *)
+Example C14_example_guard_met :
+  wf_action env0 (AComm AFExt (Some ["RT1"; "SOO1"]) [] []) = true /\
+  emit_action patched Huawei env0 (AComm AFExt (Some ["RT1"; "SOO1"]) [] []) = ([], Some ENotImpl) /\
+  emit_action patched Huawei env0 (AComm AFExt None ["RT1"; "SOO1"] []) =
+    ([["apply"; "extcommunity"; "rt"; "100:1"; "additive"]; ["apply"; "extcommunity"; "soo"; "100:2"; "additive"]], None).
+Proof. vm_compute. repeat split. Qed.
+
+Example C14_example_patched :
+  emit_action patched Huawei env0 (ANextHop NHv4 "192.0.2.1") = ([["apply"; "ip-address"; "next-hop"; "192.0.2.1"]], None).
+Proof. vm_compute. reflexivity. Qed.
